@@ -33,7 +33,7 @@ let n_cmp a b = match BinNat.N.compare a b with Datatypes.Lt -> -1 | Datatypes.E
 
 let n4 = n_of_int 4
 
-let state (a : archive) (level : int) : string =
+let rec state (a : archive) (level : int) : string =
   if level = 0 then "" else begin
     let sz = size a in
     let visible k = n_le (BinNat.N.add k n4) sz in
@@ -68,6 +68,12 @@ let state (a : archive) (level : int) : string =
                   match read_c_string re k with
                   | Ok (Some x) -> dec_of_n k ^ ":" ^ show_b x
                   | _ -> dec_of_n k ^ ":?") cells) ^ "]"
+              ^ (if level >= 3 then
+                   " re:" ^ state re 1 ^
+                   (match BinFormat.serialize Checked re with
+                    | Ok b2 -> " reser=" ^ (if b2 = b then "same" else show_b b2)
+                    | _ -> " reser=err")
+                 else "")
             | _ -> " rc=err") in
          s ^ rcs ^ " ser=" ^ show_b b
        | Err _ -> s ^ " ser=err"
@@ -81,7 +87,7 @@ let ba (toks : string list) : string =
   match toks with
   | e :: lvl :: ops ->
     let endian = if e = "B" then Bytes.BE else Bytes.LE in
-    let level = int_of_string (String.sub lvl 1 (String.length lvl - 1)) in
+    let level = ref (int_of_string (String.sub lvl 1 (String.length lvl - 1))) in
     let a = ref (ba_new endian) in
     let rpos = ref N0 in
     let wpos = ref N0 in
@@ -105,6 +111,7 @@ let ba (toks : string list) : string =
              | Ok x -> a := x; ("ok", 1)
              | Err e -> (err_kind e, 1)
              | Panic _ -> ("PANIC", 1))
+          | "lvl" -> level := int_of_string (arg 1); ("ok", 1)
           | "aae" -> a := allocate_at_end !a (n 1); ("ok", 1)
           | "al" -> (upd (allocate !a (n 1) (n 2) (bool_of (arg 3))), 3)
           | "de" -> (upd (deallocate !a (n 1) (n 2) (bool_of (arg 3))), 3)
@@ -191,7 +198,7 @@ let ba (toks : string list) : string =
           | "Wwc" -> (wtr (BinStreams.w_write_c_string !a !wpos (parse_b (arg 1))), 1)
           | x -> failwith ("ba: bad op " ^ x)
         in
-        acc := (res ^ state !a level) :: !acc;
+        acc := (res ^ state !a !level) :: !acc;
         let rec drop k l = if k = 0 then l else drop (k - 1) (List.tl l) in
         go (drop used rest)
     in
